@@ -4,7 +4,8 @@
      is a lower bound on the size of every cover of X by elements of Y;
    - the greedy cover (_upper_bound/_some_cover) is a cover, so its size is an
      upper bound on the minimum.
-   These are two of the ingredients of the (unproved) exactness [C09_full]. *)
+   These are two of the ingredients of the exactness theorem [C09_full]
+   (MinCoverFull.v). *)
 From Coq Require Import List ZArith Bool Lia Arith.
 Import ListNotations.
 From Omega Require Import L5Cover.Boxes L5Cover.BoxesProofs L5Cover.MinCover
